@@ -19,7 +19,7 @@ sample_uniform / sample_normal with the deme's bounds, the sprout seed, cma's as
 lower) of a unit-cube sample; (R01.3) sample_uniform draws between the two columns, sample_normal returns only after in_bounds,
 the conjunction of all(x >= lower) and all(x <= upper); (R01.4) the bounds used everywhere are the problem's: deme._bounds =
 config.bounds = problem.bounds, operators get problem.bounds; (R01.5) every apply_bounds call names a method the function
-handles, and unknown methods raise; (R01.6) minimize() returns the genome of the tree's best individual."""
+handles, and unknown methods raise; (R01.6) minimize() returns the genome of the tree's best individual. Round-3/4 extensions: the CMA-ES options are read through every reaching definition, `**` unpacking and option-building helpers (an alternative without `bounds`, or with bounds widened by arithmetic, is reported); scipy's truncnorm must be handed standardised clip points; the repair interpreter refines `np.where` branches by their mask."""
 NOTE = """Numeric exactness of the repair arithmetic at the faces of the box is property C17 (not decidable statically, not claimed). cma and
 scipy honouring the bounds they are given are external summaries."""
 TECHNIQUE = "abstract interpretation of the operator code over a box-closure lattice on per-function CFGs + provenance rules for every genome source (custom ast analysis)"
